@@ -66,6 +66,7 @@ class VIter(V):
 
 # uninterpreted helpers
 key2str = z3.Function("key2str", core.Key, core.StrS)  # str(k) for a dict key
+str2key = z3.Function("str2key", core.StrS, core.Key)  # inverse of key2str on the keys of one dict (injectivity assumed for int keys)
 int2str = z3.Function("int2str", z3.IntSort(), core.StrS)
 str2int = z3.Function("str2int", core.StrS, z3.IntSort())
 str2int_ok = z3.Function("str2int_ok", core.StrS, z3.BoolSort())
@@ -187,6 +188,8 @@ class Builtins:
                 return VStr(v)
         if name in ("identity", "unweighted", "square") and mod.name == "histogrammar.defs":
             return self.global_userfcn(st, name)
+        if mod.name == "histogrammar.version" and name == "specification":
+            return VStr(z3.Const("version.specification", core.StrS))  # "<major>.<minor>" of version (string ops not modelled)
         raise Unsupported(f"module constant {mod.name}.{name}")
 
     def global_userfcn(self, st, name):
@@ -249,10 +252,10 @@ class Builtins:
 
     def module_getattr(self, st, v, name):
         m = v.name
-        if m in self.X.P.modules:
-            return [Res(st, self.X.lookup_global(st, name, m))]
         if m + "." + name in self.X.P.modules:
             return [Res(st, VModule(m + "." + name))]
+        if m in self.X.P.modules:
+            return [Res(st, self.X.lookup_global(st, name, m))]
         return [Res(st, VBuiltin(f"{m}.{name}"))]
 
     def value_getattr(self, st, v, name):
@@ -495,6 +498,11 @@ class Builtins:
 
     def contains(self, st, cont, item):
         X = self.X
+        if isinstance(cont, VTuple) and isinstance(item, VJson) and all(isinstance(x, VStr) for x in cont.items):
+            from . import jsonmodel as JM
+
+            t = item.t
+            return [Res(st, VBool(z3.And(JM.jtag(t) == JM.STR, z3.Or([JM.jstr(t) == x.t for x in cont.items]))))]
         if isinstance(cont, VTuple):
             results = [Res(st, VBool(False))]
             for x in cont.items:
@@ -532,6 +540,11 @@ class Builtins:
                 return [Res(st, VBool(z3.Or([kt == self.pykey_term(k) for k in o.items] or [z3.BoolVal(False)])))]
             if isinstance(o, LSet):
                 return [Res(st, VBool(o.member(self.keyterm(item))))]
+        if isinstance(cont, core.VRec):
+            pk = self.try_pykey(item)
+            if pk is None:
+                raise Unsupported("symbolic key in record")
+            return [Res(st, VBool(pk in cont.items))]
         if isinstance(cont, VBuiltin) and cont.name == "inst.__dict__":
             o = st.obj(cont.self_v)
             if isinstance(item, VStr) and item.py is not None:
@@ -541,6 +554,10 @@ class Builtins:
 
             if isinstance(item, VStr):
                 return [Res(st, VBool(z3.Or([item.t == core.strlit(p) for p in PRIMITIVES])))]
+            if isinstance(item, VJson):
+                from . import jsonmodel as JM
+
+                return [Res(st, VBool(z3.And(JM.jtag(item.t) == JM.STR, z3.Or([JM.jstr(item.t) == core.strlit(p) for p in PRIMITIVES]))))]
         if isinstance(cont, VIter) and cont.what == "keys":
             return self.contains(st, cont.parts[0], item)
         if isinstance(cont, VJson):
@@ -779,6 +796,13 @@ class Builtins:
                     else:
                         out.extend(X.raise_(s, "KeyError", "key"))
                 return out
+        if isinstance(a, core.VRec):
+            pk = self.try_pykey(i)
+            if pk is None:
+                raise Unsupported("symbolic key into a record")
+            if pk in a.items:
+                return [Res(st, a.items[pk])]
+            return X.raise_(st, "KeyError", str(pk))
         if isinstance(a, VBuiltin) and a.name == "inst.__dict__":
             o = st.obj(a.self_v)
             if isinstance(i, VStr) and i.py is not None:
@@ -1004,7 +1028,7 @@ class Builtins:
                     return z3.BoolVal(st.obj(v).is_tuple == (n == "type.tuple"))
                 return z3.BoolVal(False)
             if n == "type.dict":
-                return z3.BoolVal(isinstance(v, VObj) and isinstance(st.obj(v), (CDict, LDict)))
+                return z3.BoolVal(isinstance(v, core.VRec) or (isinstance(v, VObj) and isinstance(st.obj(v), (CDict, LDict))))
             if n == "type.set":
                 return z3.BoolVal(isinstance(v, VObj) and isinstance(st.obj(v), (CSet, LSet)))
             if n in ("numpy.ndarray", "np.ndarray", "numpy.number", "np.number"):
@@ -1274,7 +1298,13 @@ class Builtins:
             if isinstance(v, VInt):
                 return [Res(st, VStr(int2str(v.t)))]
             if isinstance(v, VKey):
-                return [Res(st, VStr(key2str(v.t)))]
+                ks_ = key2str(v.t)
+                # str() of an int key parses back to that int
+                st.add(z3.Implies(core.Key.is_KInt(v.t), z3.And(str2int_ok(ks_), str2int(ks_) == core.Key.ki(v.t))))
+                st.add(z3.Implies(core.Key.is_KStr(v.t), ks_ == core.Key.ks(v.t)))  # str(s) is s
+                st.add(z3.Implies(core.Key.is_KInt(v.t), ks_ == int2str(core.Key.ki(v.t))))  # canonical decimal
+                st.add(z3.Implies(z3.Not(core.Key.is_KBool(v.t)), str2key(ks_) == v.t))
+                return [Res(st, VStr(ks_))]
             if isinstance(v, VBool):
                 return [Res(st, VStr(key2str(core.Key.KBool(v.t))))]
             return [Res(st, VStr(st.fresh("str", core.StrS)))]
@@ -1363,7 +1393,14 @@ class Builtins:
                     out.extend(X.raise_(s, "ValueError", "int(str)"))
             return out
         if isinstance(v, VKey):
-            raise Unsupported("int(key)")
+            # a key of a string-keyed mapping (JSON object)
+            out = []
+            for s, isstr in X.branch(st, core.Key.is_KStr(v.t)):
+                if isstr:
+                    out.extend(self.to_int(s, VStr(core.Key.ks(v.t))))
+                else:
+                    raise Unsupported("int(non-string key)")
+            return out
         return X.raise_(st, "TypeError", "int()")
 
     # iterables
@@ -1465,8 +1502,14 @@ class Builtins:
                 return [Res(st, VStr(st.fresh("strjoin", core.StrS)))]
             if name == "split":
                 raise Unsupported("str.split")
-        if isinstance(selfv, VIter) and selfv.what in ("keys",):
-            pass
+        if isinstance(selfv, core.VRec):
+            if name == "keys":
+                return [Res(st, VTuple([self.pykey_value(k) for k in selfv.items]))]
+            if name == "items":
+                return [Res(st, VTuple([VTuple([self.pykey_value(k), v]) for k, v in selfv.items.items()]))]
+            if name == "get":
+                pk = self.pykey(args[0])
+                return [Res(st, selfv.items.get(pk, args[1] if len(args) > 1 else NONE))]
         if isinstance(selfv, VJson):
             from . import jsonmodel
 
